@@ -21,6 +21,10 @@ def run(chk, tier):
         spec_cursor.check(chk, lib, limit_per_row=4 if tier == "quick" else 20)
     import gflow
     gflow.check_block_length_flow(chk)
+    # which cursor primitive the generated accessor of each member forwards to: the last non-constant field of a block
+    # must use get_last_value/set_last_value (jump to level + wire blockLength), every other one get_value/set_value
+    import e4
+    e4.check(chk, ("cursor",), tier)
     chk.floor("BASE rows", chk.rule_counts.get("BASE", 0), 40)
     chk.floor("GRP rows", chk.rule_counts.get("GRP", 0), 100)
     return chk.finish(
@@ -32,5 +36,7 @@ def run(chk, tier):
                      "affine normal forms of E2 summaries over every instantiation of the corpus (reordered / offset / "
                      "ref-typed / wide headers included). Generator side (G-FLOW c): the compiled block length "
                      "(actual_block_length) flows only into header fillers and block_length() traits, never into an "
-                     "accessor, iterator, size_bytes or cursor template."),
+                     "accessor, iterator, size_bytes or cursor template. E4 cursor: in the generated headers of every schema the "
+                     "accessor of the last non-constant field of each block forwards to get_last_value / set_last_value "
+                     "(the jump to the wire block end), all others to the relative-offset primitive."),
         rule_text="instances = (row, instantiation); distinct by (row, dimension/header type)")
